@@ -198,8 +198,17 @@ func checkC09(r *Run) propMeta {
 		for rule, h := range vt.Enter {
 			always := h.AddsErr != nil && !h.Opaque
 			if always {
-				eq, _ := bEquiv(h.AddsErr, bTrue)
-				always = eq
+				// on every derivation of the rule, once the atoms the derivation decides are replaced, what is left holds
+				// under every assignment of the others
+				ds := g.Derivations(rule)
+				if len(ds) == 0 {
+					ds = [][]string{nil}
+				}
+				for _, d := range ds {
+					if eq, _ := bEquiv(h.AddsErr.onDeriv(d, g.NonNullable), bTrue); !eq {
+						always = false
+					}
+				}
 			}
 			if always && filterErrArgsNonNil(vm, h.Decl) {
 				filtered[rule] = true
